@@ -1,6 +1,6 @@
 (* C08 -- non-vacuity: concrete inputs meet the hypotheses of the theorems. *)
 From Coq Require Import ZArith List Bool Arith Lia.
-From Verif.C08 Require Import Model Proofs.
+From Verif.C08 Require Import Model Proofs CoreSym Update Formats.
 Import ListNotations.
 
 (* chunk_tasks(range(10), 3) = [0..3], [4..7], [8,9]   (n = 10 // 3 + 1 = 4) *)
@@ -106,3 +106,44 @@ Proof.
   intros m Hm. simpl in Hm.
   destruct m as [|[|[|[|m]]]]; try (simpl in Hm; lia); vm_compute; split; try reflexivity; lia.
 Qed.
+
+(* symmetric_equals_full_core: two levels with the dense 2x2 pattern, 2x2 component blocks and a
+   symmetric block function B(j,i)[col,row] = B(i,j)[row,col] *)
+Definition ex_Bs (i j : list Z) (c : nat) : Z :=
+  let r := Z.of_nat (c / 2) in let k := Z.of_nat (c mod 2) in
+  (100 * (hd 0 i * hd 0 j) + 10 * (hd 0 (tl i) + hd 0 (tl j)) + (r + 1) * (k + 1) + (hd 0 i + r) * (hd 0 j + k))%Z.
+
+Example ex_level_ok : Forall level_ok [(ex_b0, ex_t0); (ex_b0, ex_t0)].
+Proof. repeat (apply Forall_cons; [split; [exact ex_b0_nodup | exact ex_transp_ok]|]). apply Forall_nil. Qed.
+
+Example ex_core_sym_eq_full :
+  core_entries 0%Z 2 2 ex_Bs true [(ex_b0, ex_t0); (ex_b0, ex_t0)] =
+  core_entries 0%Z 2 2 ex_Bs false [(ex_b0, ex_t0); (ex_b0, ex_t0)]
+  /\ nth 6 (core_entries 0%Z 2 2 ex_Bs true [(ex_b0, ex_t0); (ex_b0, ex_t0)]) 0%Z <> 0%Z.
+Proof. vm_compute. split; [reflexivity | discriminate]. Qed.
+
+(* update(): the layout of 'f*u*v*dx + inner(grad(f),grad(v))*u*dx' in 2D (input 2 = f):
+   f_a at slot 0, f_grad_a at slots 1..2; a correct update() refreshes both *)
+Close Scope Z_scope.
+Definition ex_arrs : list arr := [(0, 2, 0, 1); (2, 2, 1, 2)].
+Example ex_update_ok : update_okb ex_arrs [(2, ex_arrs)] [1] = true.
+Proof. vm_compute. reflexivity. Qed.
+(* the generated update() of seeded change C08-1 keeps only the last array per input: rejected *)
+Example ex_update_seeded_rejected : update_okb ex_arrs [(2, [(2, 2, 1, 2)])] [1] = false.
+Proof. vm_compute. reflexivity. Qed.
+Example ex_update_stale :
+  let D := fun (q : nat) (x : nat) (k : nat) => 100 * q + 10 * x + k in
+  update D [(2, 2, 1, 2)] 7 (init D ex_arrs (fun _ => 3) (fun _ => 0)) 0 = 30 /\
+  init D ex_arrs (override (fun _ => 3) 2 7) (fun _ => 0) 0 = 70.
+Proof. vm_compute. auto. Qed.
+
+(* formats: a COO list with a duplicate coordinate inside a 2 x 3 shape *)
+Definition ex_T : list ((Z * Z) * Z) := [((1,0),5); ((0,1),2); ((1,0),7); ((1,2),1)]%Z.
+Example ex_T_in_shape : forall t, In t ex_T ->
+  (0 <= fst (fst t) < Z.of_nat 2)%Z /\ (0 <= snd (fst t) < Z.of_nat 3)%Z.
+Proof. intros t H. simpl in H. repeat (destruct H as [<-|H]; [simpl; lia|]). destruct H. Qed.
+Example ex_csr : coo_tocsr Z 2 ex_T = [[(1, 2)]; [(0, 5); (0, 7); (2, 1)]]%Z
+  /\ den 0%Z Z.add (csr_triples Z (coo_tocsr Z 2 ex_T)) (1, 0)%Z = 12%Z
+  /\ den 0%Z Z.add (csc_triples Z (coo_tocsc Z 3 ex_T)) (1, 0)%Z = 12%Z
+  /\ canon_row Z Z.add [(2, 1); (0, 5); (0, 7)]%Z = [(0, 12); (2, 1)]%Z.
+Proof. vm_compute. auto. Qed.
